@@ -99,6 +99,7 @@ def L.names : L → List String
   | .wrap body attr rest => body.names ++ attr.toList ++ rest.names
   | .fields nm rest => nm :: rest.names
   | .bit _ _ body rest => body.names ++ rest.names
+  | .ver _ _ rest => rest.names
 
 theorem Env.get_cons_self (e : Env) (nm : String) (v : Val) : Env.get ((nm, v) :: e) nm = v := by
   simp [Env.get, List.lookup]
